@@ -8,7 +8,8 @@ Inductive mutation :=
 | MNone
 | MDel (k : str)                        (* del data[k] *)
 | MSet (k : str) (j : json)             (* data[k] = j *)
-| MSetIn (k k2 : str) (j : json).       (* data[k][k2] = j *)
+| MSetIn (k k2 : str) (j : json)        (* data[k][k2] = j *)
+| MRemove (p : path).                   (* os.remove(<file of an output>) *)
 
 Definition mutate_obj (m : mutation) (o : list (str * json)) : list (str * json) :=
   match m with
@@ -18,9 +19,11 @@ Definition mutate_obj (m : mutation) (o : list (str * json)) : list (str * json)
   | MSetIn k k2 j => map (fun kv => if str_eqb (fst kv) k
                                     then (fst kv, match snd kv with JObj o2 => JObj (dict_set o2 k2 j) | x => x end)
                                     else kv) o
+  | MRemove _ => o
   end.
 Definition mutate_world (m : mutation) (w : world) : world :=
   match m, fs_get (w_files w) PRunInfo with
+  | MRemove p, _ => with_files w (filter (fun pc => negb (path_eqb p (fst pc))) (w_files w))
   | MNone, _ => w
   | _, Some (Json (JObj o)) => write w PRunInfo (Json (JObj (mutate_obj m o)))
   | _, _ => w
@@ -296,8 +299,13 @@ Definition load_ok (c : case) (ran_outs : list sx) (ran_info ran_inputs ran_defa
   | _ => false
   end.
 
+(* a storage dict must name a backend for every mapped output (or have the "" default): otherwise map itself refuses *)
+Definition storage_complete (c : case) : bool :=
+  forallb (fun f => negb (is_mapped f)
+                    || is_ok (storage_class (normalize_storage (c_storage c)) (output_key_of f))) (c_funcs c).
+
 Definition spec_ok (c : case) (o : sx) : bool :=
-  if negb (request_ok (c_funcs c) (c_inputs c)) then true else
+  if negb (request_ok (c_funcs c) (c_inputs c) && storage_complete c) then true else
   match c_mut c with MNone => false | _ => true end ||
   match denote_run sym_body (c_funcs c) (c_inputs c) (c_internal c) with
   | Err _ => true
